@@ -32,6 +32,10 @@ def wells(p):
     return [[{s.name: v for s, v in w.contents.items()} for w in row] for row in p.wells]
 
 
+def wells_text(p):
+    return [[w.instructions for w in row] for row in p.wells]
+
+
 def totals(objs):
     t = {}
     for o in objs:
@@ -129,6 +133,13 @@ def replay_transfer(mode, ga, gb):
     nrows = len(P1.row_names)
     if wells(P1) != before['P1'] or wells(P2) != before['P2']:
         fails.append('argument modified')
+    # every well keeps its own preparation text (C19): the result's instructions extend the original's
+    for tag, P, R in (('source plate', P1, R1), ('destination plate', P2, R2)):
+        for r in range(len(P.row_names)):
+            for c in range(3):
+                if not R.wells[r, c].instructions.startswith(P.wells[r, c].instructions):
+                    fails.append(f'{tag} well [{r},{c}]: instructions {R.wells[r, c].instructions!r} do not continue '
+                                 f'its own text {P.wells[r, c].instructions!r}')
     tot1 = totals([R1, R2] if two else [R1])
     if not same(tot0, tot1):
         fails.append(f'not conserved: {tot0} -> {tot1}')
@@ -163,6 +174,8 @@ def replay_unary(op, g, via):
     cs = cells(P1, g)
     for r in range(2):
         for c in range(3):
+            if not wells_text(R)[r][c].startswith(P1.wells[r, c].instructions):
+                fails.append(f'well [{r},{c}]: instructions do not continue its own text')
             w = P1.wells[r, c]
             exp = (w.remove(water) if op == 'remove' else w.fill_to(water, '400 uL')) if (r, c) in cs else w
             if not same({s.name: v for s, v in exp.contents.items()}, wells(R)[r][c]):
